@@ -1713,9 +1713,12 @@ def ex_swift(ctx):
             # key binding
             if d['coding_keys'] is not None:
                 ck = {c['name']: c for c in d['coding_keys']}
-                for mem in d['members']:
+                # the i-th case belongs to the i-th stored property when the two name lists agree (this is
+                # the template; it matters only when two properties carry the same identifier), else by name
+                positional = [c['name'] for c in d['coding_keys']] == [mm_['name'] for mm_ in d['members']]
+                for k_, mem in enumerate(d['members']):
                     mem['key_binding'] = 'coding_key'
-                    c = ck.get(mem['name'])
+                    c = d['coding_keys'][k_] if positional else ck.get(mem['name'])
                     if c is None:
                         mem['wire_key'] = None
                         ctx.anomalies.append(f'{name}.{mem["name"]}: no CodingKeys case')
